@@ -49,6 +49,7 @@ def main():
   ties = 0
   maxrel = 0.0
   params_seen = []
+  params16 = []
   for v in vecs:
     rep = {"property": "C17", "vector": v}
     if v["fam"] == "zs":
@@ -74,6 +75,8 @@ def main():
       obs.append({"kind": "zs", "zp": zpi, "lo": lo, "hi": hi, "sym": v["sym"], "zpok": bool(np.issubdtype(zp.dtype, np.signedinteger))})
       if v["bits"] in (4, 8) and len(params_seen) < (400 if args.tier == "quick" else 4000):
         params_seen.append((v, zp, sc))
+      if v["bits"] == 16 and len(params16) < (120 if args.tier == "quick" else 1500):
+        params16.append((v, zp, sc))
     else:
       x = np.array([float(F(v["x"]))], np.float32)
       p = Q.UniformQuantParams(num_bits=v["bits"], quantized_dimension=None, scale=np.array([float(F(v["scale"]))], np.float32),
@@ -105,6 +108,21 @@ def main():
       qs = U.uniform_quantize(xs, p)
     # every outlier is beyond the representable range [deq(lo), deq(hi)] (ranges of these vectors are below 10 in magnitude)
     obs.append({"kind": "mono", "qs": [int(b) for b in qs.flatten()], "lo": lo, "hi": hi, "below": len(far), "above": len(far)})
+  # ---- 16 bit: the codes at both ends, around the zero point and a stride through the range (not exhaustive), parameters and dtypes
+  # exactly as the library produces them (codes as int16, as uniform_quantize returns them)
+  for v, zp, sc in params16:
+    sym = v["sym"]
+    lo, hi = -(2 ** 15) + (1 if sym else 0), 2 ** 15 - 1
+    z = int(np.asarray(zp).flatten()[0])
+    pts = sorted({c for c in list(range(lo, lo + 4)) + list(range(hi - 3, hi + 1)) + list(range(lo, hi + 1, 509)) + [z - 1, z, z + 1, 0, -1, 1] if lo <= c <= hi})
+    codes = np.array(pts, np.int16).reshape(1, -1)
+    p = Q.UniformQuantParams(num_bits=16, quantized_dimension=None, scale=sc, zero_point=zp, symmetric=sym)
+    deq = U.uniform_dequantize(codes, p)
+    back = U.uniform_quantize(np.asarray(deq, np.float32), p)
+    obs.append({"kind": "rt", "codes": [int(c) for c in codes.flatten()], "back": [int(b) for b in back.flatten()], "lo": lo, "hi": hi})
+    # dequantize is affine and increasing in the code: the dequantized values of ascending codes ascend
+    dv = np.asarray(deq, np.float64).flatten()
+    obs.append({"kind": "mono", "qs": [int(x) for x in np.argsort(dv, kind="stable")], "lo": 0, "hi": len(pts) - 1, "below": 0, "above": 0})
   # ---- per-channel parameters act only along their own channel (rank 1..4, any quantised dimension)
   rng = np.random.default_rng(args.seed)
   nchan = 60 if args.tier == "quick" else 1500
@@ -144,7 +162,7 @@ def main():
   chk.cov.update({
       "states": r.distinct + ro.distinct, "transitions": r.generated + ro.generated, "traces_validated_against_impl": len(obs),
       "reference_vectors": len(vecs), "exact_ties_detected": ties, "max_rel_scale_error": maxrel,
-      "observed_roundtrip_all_codes": sum(1 for o in obs if o["kind"] == "rt"), "observed_per_channel": nchan,
+      "observed_roundtrip_all_codes": sum(1 for o in obs if o["kind"] == "rt"), "observed_roundtrip_16bit_parameter_sets": len(params16), "observed_per_channel": nchan,
       "evaluations": len(vecs) + len(obs), "distinct_nontrivial": len(vecs),
       "rule": "vectors = grid of ranges (min=-a/8,max=b/8, one-sided, tiny) x bits {4,8,16} x symmetry; elements x=k/16 x dyadic scales x "
               "zero points; all integer codes for 4/8 bit under parameters exactly as the library returns them; random per-channel tensors",
